@@ -1407,12 +1407,22 @@ impl FdlActiveStation {
 
             // Only check and transition to ActiveIdle on the first telegram.
             if first_in {
-                if telegram.source_address() != Some(self.token_ring.next_station()) {
-                    log::warn!(
-                        "Unexpected station #{} transmitting after token pass to #{}",
-                        telegram.source_address().unwrap(),
-                        self.token_ring.next_station()
-                    );
+                match telegram.source_address() {
+                    Some(sa) if sa != self.token_ring.next_station() => {
+                        log::warn!(
+                            "Unexpected station #{} transmitting after token pass to #{}",
+                            sa,
+                            self.token_ring.next_station()
+                        );
+                    }
+                    // A short confirmation does not have a source address.
+                    None => {
+                        log::warn!(
+                            "Unexpected short confirmation after token pass to #{}",
+                            self.token_ring.next_station()
+                        );
+                    }
+                    _ => (),
                 }
 
                 // In case this was a telegram to us, we must already handle it in ActiveIdle state
